@@ -438,11 +438,16 @@ let run (prop : string) (input : S.t) (observed : S.t) : S.t * string =
   (run_model p, oracle prop p observed)
 
 (* ---- C07: envelope, locations under layouts, JSON text ---- *)
+let c07_dup = ref false
 let c07_sections (input : S.t) =
   match input with
   | S.L (S.A "exec" :: secs) ->
     let layouts = List.map S.int (try find_section "layouts" secs with _ -> []) in
-    let garbled = (match (try find_section "garble" secs with _ -> []) with [g] -> S.int g > 0 | _ -> false) in
+    let g = (match (try find_section "garble" secs with _ -> []) with [g] -> S.int g | _ -> 0) in
+    (* damaged bytes (nothing is predicted) or, every fourth, the whole document written twice: refused, and
+       the refusal is located at the same token in every layout *)
+    let garbled = g > 0 && g mod 4 <> 0 in
+    c07_dup := (g > 0 && g mod 4 = 0);
     (layouts, garbled)
   | _ -> failwith "c07: input"
 
@@ -468,6 +473,7 @@ let run_c07 (input : S.t) (observed : S.t) : S.t * string =
   let expected =
     if garbled then S.L [S.A "malformed"] else
     let outs = (match run_model p with S.L l -> List.filter (function S.L (S.A "printed" :: _) -> false | _ -> true) l | _ -> []) in
+    let outs = if !c07_dup then List.map (fun _ -> S.L [S.A "rejected"]) outs else outs in
     let one = List.map (function
         | S.L [S.A "rejected"] -> S.L [S.A "r"; S.A "1"; S.A "nodata"; S.A "list"; S.A "rejected-errors"; same3]
         | S.L [S.A "resp"; data; S.L errs; _] ->
